@@ -57,9 +57,9 @@ CHECKS = {
  "C11": ("fault_enumeration", "runtime monitor on the wire: the real NTS client under exhaustively enumerated loss patterns against a scripted NTS-KE + NTS peer that parses every request and tracks the pool level; and the monitor as NTS client of the real listeners (child process) using every cookie it is handed",
          "All loss patterns up to length 7 (quick) / 10 (thorough), drains to an empty pool with re-keying, long random patterns; every request's cookie tag, field types, placeholder count and length checked; server replies checked for size, authentication, cookie count, freshness and later acceptance.",
          "124-byte cookies (the project's size); a lost exchange is a withheld response; cookie validity under server keys observed by spending the cookies, not by opening them", "3/C11"),
- "C13": ("exploration", "runtime monitor on real sockets: SCION requests with independently computed packet authenticators (scion library spao, mock DRKey) against the real listeners and dispatcher in child processes, and the real authenticated SCION client against a scripted peer; forwarding observed on application sockets",
-         "Authenticated requests served iff the MAC is intact over definitely covered bytes; replies checked for server SPI, a verifying MAC, exchanged addressing, library path reversal, intact SCMP payload; forwarding exactly on the end-host port and never to it; bad MACs never accepted by the client.",
-         "mock keys (zero host-to-host key) instead of a control plane: address changes are bound by key derivation in reality and are not asserted here; hand-built paths", "3/C13"),
+ "C13": ("exploration", "runtime monitor on real sockets: SCION requests with independently computed packet authenticators (scion library spao) against the real listeners and dispatcher in child processes, with the project's mock DRKey for the byte-level cases and with real DRKey fetching from a scripted SCION daemon (gRPC) for key binding; the real authenticated SCION client against a scripted peer and against the real listener; forwarding observed on application sockets",
+         "Authenticated requests served iff the MAC is intact over definitely covered bytes; replies checked for server SPI, a verifying MAC, exchanged addressing, library path reversal, intact SCMP payload; forwarding exactly on the end-host port and never to it; bad MACs never accepted by the client. With real key fetching: served iff signed under the host-to-host key of exactly the packet's ISD-ASes, hosts and epoch, for every order of identities (level-2 key cache); real client and listener agree on the key.",
+         "a scripted daemon instead of a control plane (keys are a deterministic function of identity and epoch, derived with the scion library's generic derivation); hand-built paths", "3/C13"),
  "C15": ("exploration", "runtime monitors: crypto.Sample/RandIntn with crypto/rand.Reader replaced by a scripted word source (structure, rejection threshold, chi-square uniformity, full 2^32-word enumeration for n=3 in thorough), and rounds of the real MeasureClockOffsetSCION observed on the wire by per-path scripted servers, race detector on",
          "Client->path relation per round reconstructed from the requests each path's server received (clients told apart by DSCP): injective, within the offer, sticky for interleaved clients, reset on withdrawal; result compared with the fault-tolerant midpoint of the participants' known offsets.",
          "hand-built paths and scripted servers instead of a SCION network; uniformity is statistical (p ~ 1e-9) plus exhaustive only for n=3; race reports are observations (O1), the property does not claim race freedom", "3/C15"),
